@@ -69,6 +69,16 @@ def _strategy(draw):
     # together with rejected steps
     mixed = draw(st.integers(0, 3)) == 0
     spec = draw(gc.system(max_res=8)) if mixed else draw(gc.system())
+    if draw(st.integers(0, 11)) == 0:
+        # one residue hangs on the rest of its molecule through a virtual-site construction only (the program
+        # may refuse such a molecule; if it builds it, every atom still gets a finite coordinate)
+        used = {n for n, _ in spec["molecules"]}
+        cands = [(mt, e) for mt in spec["moltypes"] if mt["name"] in used and mt["shape"] != "ring"
+                 for e in mt["res_edges"] if len(mt["residues"][e[0]]["atoms"]) >= 2 and mt["residues"][e[0]]["vs"] is None]
+        if cands:
+            mt, e = draw(st.sampled_from(cands))
+            mt["vs_only_edges"] = [list(e)]
+            spec["vs_only"] = True
     edge = gc.dilute_box(spec)
     opts = {}
     box_kind = draw(st.sampled_from(["box", "box", "rect", "dens"]))
@@ -184,6 +194,8 @@ def check(spec, ctx):
         RandomWalk.update_positions = orig_update
     if fails[0]:
         ctx.label("rejected_steps")
+    if spec.get("vs_only"):
+        ctx.label("residue_attached_by_virtual_site_only")
     if res.exc is not None:
         if isinstance(res.exc, (IOError, OSError)):
             raise Reject(str(res.exc)[:200])
